@@ -72,3 +72,23 @@ def downlink_of_line(e):
     if x is None:
         return False
     return x[0] == "call" and x[1].endswith("from_message") and len(x[2]) == 1 and message_of_line(x[2][0])
+
+
+def updater_input_problems(facts, reg):
+    """every argument of the table updater called in the per-line region is this line's message / DF / address / decoded
+    frame (or a parameter / constant of the reader) -> [(call bb, callee, offending expression text)]; also the number examined"""
+    from .effects import Effects
+    from .facts import callee_name
+    from .mirq import expr, show
+    ups = [(bi, t) for bi, t, e in reg.effect_sites() if Effects.has_table(e) and callee_name(t) in facts.bodies
+           and any(tt["callee"].get("name") == "entry" for _, tt in facts.bodies[callee_name(t)].calls())]
+    out = []
+    n = 0
+    for bi, t in ups:
+        for a in t["args"]:
+            e = expr(reg.du, a)
+            n += 1
+            ok = e[0] in ("arg", "const") or icao_of_line(e) or df_of_line(e) or message_of_line(e) or downlink_of_line(e)
+            if not ok:
+                out.append((bi, callee_name(t), show(e)[:120]))
+    return n, out
